@@ -705,8 +705,9 @@ func materialise(dir, rel string, n *node) error {
 }
 
 type readObs struct {
-	Path []string // ms.Path before the Read
-	Line string   // "file <name> <path after>" | "none" | "err <msg>"
+	Path  []string // ms.Path before the Read
+	Calls []string // the search path as the calls so far registered it (spell.go): what model and specification are asked about
+	Line  string   // "file <name> <path after>" | "none" | "err <msg>"
 }
 
 type fileObs struct {
@@ -736,8 +737,10 @@ func runFile(work string, c fileCase) (obs fileObs) {
 		}
 	}()
 	ms := yang.NewModules()
+	cp := newCallPath()
 	for _, a := range c.Add {
 		ms.AddPath(a)
+		cp.add(a)
 	}
 	if c.Walk != "" {
 		ps, _ := yang.PathsWithModules(c.Walk)
@@ -747,6 +750,7 @@ func runFile(work string, c fileCase) (obs fileObs) {
 		}
 		obs.Walk = "paths " + commaJoin(hx)
 		ms.AddPath(ps...)
+		cp.add(ps...)
 	}
 	for _, name := range c.Names {
 		before := append([]string{}, ms.Path...)
@@ -758,7 +762,7 @@ func runFile(work string, c fileCase) (obs fileObs) {
 			known[m] = true
 		}
 		err := ms.Read(name)
-		ro := readObs{Path: before}
+		ro := readObs{Path: before, Calls: cp.snapshot()}
 		opened := ""
 		var nm *yang.Module
 		for _, mm := range []map[string]*yang.Module{ms.Modules, ms.SubModules} {
@@ -775,6 +779,7 @@ func runFile(work string, c fileCase) (obs fileObs) {
 				hx = append(hx, lib.HexS(p))
 			}
 			ro.Line = "file " + lib.HexS(srcFile(nm)) + " " + commaJoin(hx)
+			cp.readFrom(name, srcFile(nm))
 			if nm.Description != nil {
 				opened = nm.Description.Name
 			}
@@ -783,6 +788,7 @@ func runFile(work string, c fileCase) (obs fileObs) {
 		case err != nil:
 			// e.g. the file found holds a module that is already loaded: the file name is in the message
 			ro.Line = "err " + err.Error()
+			cp.resync(ms.Path)
 		default:
 			ro.Line = "err loaded nothing new"
 		}
@@ -1008,6 +1014,17 @@ func partB(f *lib.Flags, res *lib.Result, d *lib.Driver, distinct *lib.Distinct,
 		fileCase{Root: &node{Kids: []*node{{Name: "foo.yang", Kids: files("foo.yang")}, {Name: "p", Kids: files("foo@2020-01-01.yang")}}},
 			Add: []string{"p"}, Names: []string{"foo"}},
 	)
+	// one directory registered plain and recursively, both orders, by separate calls and as a colon list; the
+	// current directory likewise (seeded change C13-l21: entries keyed by the directory they stand for)
+	for _, add := range [][]string{{"d", "d/..."}, {"d/...", "d"}, {"d:d/..."}, {"d", "e", "d/..."}, {"d:e:d/..."}} {
+		cases = append(cases,
+			fileCase{Root: &node{Kids: []*node{dirNode("d", append(files("bar.yang"), dirNode("lib", files("foo@2020-01-01.yang", "foo@2019-01-01.yang")...))...), dirNode("e")}}, Add: add, Names: []string{"foo"}},
+			fileCase{Root: &node{Kids: []*node{dirNode("d", dirNode("lib", files("foo.yang")...)), dirNode("e", files("foo@2021-01-01.yang")...)}}, Add: add, Names: []string{"foo", "bar"}})
+	}
+	for _, add := range [][]string{{".", "..."}, {"...", "."}, {".:..."}} {
+		cases = append(cases, fileCase{Root: &node{Kids: append(files("bar.yang"), dirNode("lib", files("foo@2020-01-01.yang")...))}, Add: add, Names: []string{"foo"}},
+			fileCase{Root: &node{Kids: append(files("bar.yang"), dirNode("lib", files("foo@2020-01-01.yang")...))}, Add: add, Names: []string{"bar", "foo"}})
+	}
 	nRand := 2500
 	if f.Thorough() {
 		nRand = 60000
@@ -1047,8 +1064,8 @@ func partB(f *lib.Flags, res *lib.Result, d *lib.Driver, distinct *lib.Distinct,
 			// a second Read may find a module that is already loaded; the model of findFile is about
 			// the file, so such a Read is compared through the name in the error message only when
 			// it is a plain result
-			req := findRequest("find", c.Root, ro.Path, c.Names[ri])
-			probes = append(probes, probe{i, ri, req, ro.Line, c.Names[ri], ro.Path})
+			req := findRequest("find", c.Root, ro.Calls, c.Names[ri])
+			probes = append(probes, probe{i, ri, req, ro.Line, c.Names[ri], ro.Calls})
 			if distinct.Add(req) && nontrivialFile(c.Root) {
 				nontrivial++
 			}
@@ -1091,13 +1108,22 @@ func partB(f *lib.Flags, res *lib.Result, d *lib.Driver, distinct *lib.Distinct,
 			}
 		}
 		if p.goLine != ans[i] {
-			if len(res.Disagreements) >= 50 {
+			if len(res.Disagreements) >= 50 && chosen(p.goLine) == chosen(ans[i]) {
+				// the same file, another Path afterwards: no failing input to be had
 				res.Count("disagreements_not_examined", 1)
 				continue
 			}
 			v, spec := specFind(d, c.Root, p.path, p.name, p.goLine)
-			res.AddDisagreement(lib.Disagreement{Kind: "correspondence", Input: c, Go: p.goLine, Model: ans[i], SpecVerdict: v,
-				What: fmt.Sprintf("Read(%q) differs from the model; specification: %s", p.name, spec), Replay: map[string]any{"file": c}})
+			dis := lib.Disagreement{Kind: "correspondence", Input: c, Go: p.goLine, Model: ans[i], SpecVerdict: v,
+				What: fmt.Sprintf("Read(%q) differs from the model; specification: %s", p.name, spec), Replay: map[string]any{"file": c}}
+			if v == "violates" {
+				ro := obs[p.ci].Reads[p.ri]
+				dis.Kind = "spec"
+				dis.What = fmt.Sprintf("C13 (b) `a module that is not yet loaded is fetched from the first search-path directory holding a candidate` fails: after AddPath%q%s Read(%q) answers [%s]; "+
+					"the search path as the calls registered it (AddPath arguments in order, only exact duplicates dropped, plus the directory of every file read from `.` or by explicit path) is %q and the specification chooses [%s] on it (model: [%s]); ms.Path is %q",
+					c.Add, map[bool]string{true: " + PathsWithModules(" + c.Walk + ")", false: ""}[c.Walk != ""], p.name, unhexLine(chosen(p.goLine)), ro.Calls, unhexLine(spec), unhexLine(chosen(ans[i])), ro.Path)
+			}
+			res.AddDisagreement(dis) // (when full, one with a concrete failing input displaces one without)
 			continue
 		}
 		if i%(len(probes)/3+1) == 11 {
@@ -1119,9 +1145,8 @@ func partB(f *lib.Flags, res *lib.Result, d *lib.Driver, distinct *lib.Distinct,
 		}
 		specEvaluated++
 		if !specAgrees(p.goLine, specAns[i]) {
-			if len(res.Disagreements) >= 50 {
-				res.Count("disagreements_not_examined", 1)
-				continue
+			if p.goLine != ans[i] && ans[i] != "outside" {
+				continue // reported above, with the verdict
 			}
 			res.AddDisagreement(lib.Disagreement{Kind: "spec", Input: cases[p.ci], Go: p.goLine, Model: specAns[i], SpecVerdict: "violates",
 				What: fmt.Sprintf("Read(%q) did not choose the file the specification names", p.name), Replay: map[string]any{"file": cases[p.ci]}})
@@ -1263,7 +1288,12 @@ func main() {
 		"on the layout and ms.Path as they are at that moment, and with the same lookup on a fresh Modules value with the same Path): {4 path setups: AddPath d1 d2 / AddPath d1/... d2 / ms.Path assigned / colon list with near misses} x first lookup of foo (6 kinds, fails) x " +
 		"{11 changes: foo.yang or dated candidates written into d1, d2, the current directory, a new subdirectory below a `...` entry; a new directory appended or assigned to ms.Path directly, or given to AddPath; AddPath of d1 again; an older candidate in the earlier directory; written and removed again} x second lookup (6 kinds; quick tier: all pairs of kinds for the first setup, equal kinds for the others); " +
 		"{any subset of foo candidates in each of d1, d2} x first lookup of another name (bar: fails, foobar: succeeds) x {nothing, each present candidate removed, each absent one written} x lookup of foo; the two histories of the demonstration of seeded change C13-j22; " +
-		"seeded random histories: random tree, 0-2 AddPath, 2-4 rounds of 0-3 changes (candidate or near miss written - preferably for a name asked for before -, file removed, new directory with a candidate put on the path by AddPath or by appending to ms.Path, AddPath of new or repeated arguments, ms.Path appended/assigned) and one lookup of foo, bar, foobar, fo (or Read of foo@2020-01-01). " +
+		"seeded random histories: random tree, 0-2 AddPath, 2-4 rounds of 0-3 changes (candidate or near miss written - preferably for a name asked for before -, file removed, new directory with a candidate put on the path by AddPath or by appending to ms.Path, AddPath of new or repeated arguments, ms.Path appended/assigned) and one lookup of foo, bar, foobar, fo (or Read of foo@2020-01-01); " +
+		"the search path as the calls registered it (AddPath arguments in order, each colon element appended unless the same string was appended before, plus `.` / the directory of every file read from the current directory / by explicit path - computed from the calls, not read back from ms.Path) is what model and specification are asked about in part (b) proper, " +
+		"and in the histories every lookup whose registered path is not ms.Path, or has entries that are not clean relative paths, is judged by the specification on the registered entries in clean relative form (an entry stands for the directory it denotes) and by a fresh Modules value whose Path is assigned the registered entries; " +
+		"spelling histories: one directory d registered twice in every ordered pair of 12 spellings (d, d/, d/., ./d, d//, absolute, e/../d, d/..., ./d/..., d//..., absolute/..., d/./...) by two calls, one call with two arguments or a colon list, another directory between them or not, candidates in d/lib alone, in d and d/lib, in e and d/lib, then one lookup; " +
+		"a file of d read by explicit path (4 spellings) before or after a recursive entry for d (5 spellings), then a lookup whose only candidate is below d; a Read / FindModule / Process that finds its file in the current directory (or AddPath of `.`) before or after `...` in 4 spellings; " +
+		"seeded random spelling histories (2-5 registrations of random spellings of directories of a random tree, preferably one registered before, by AddPath with one or two arguments or a colon list or by a Read by explicit path, then 1-2 lookups). " +
 		"distinct_nontrivial = distinct driver requests whose loads contain two headers of one kind and name (a), or whose tree holds two candidates or a candidate and a near miss (b), or distinct history prefixes ending in a lookup that follows an earlier lookup and at least one change of layout or path (histories)"
 	res.Write(f.Out)
 }
@@ -1331,8 +1361,11 @@ func replay(f *lib.Flags, d *lib.Driver, work string) int {
 			rc = 1
 		}
 		for ri, ro := range o.Reads {
-			m, _ := d.Ask(findRequest("find", c.Root, ro.Path, c.Names[ri]))
-			v, spec := specFind(d, c.Root, ro.Path, c.Names[ri], ro.Line)
+			m, _ := d.Ask(findRequest("find", c.Root, ro.Calls, c.Names[ri]))
+			v, spec := specFind(d, c.Root, ro.Calls, c.Names[ri], ro.Line)
+			if !sameStrings(ro.Calls, ro.Path) {
+				fmt.Printf("the calls registered the search path %q, ms.Path is %q\n", ro.Calls, ro.Path)
+			}
 			fmt.Printf("Read(%q) with Path %q\ngo:      %s (opened %q)\nmodel:   %s\nspec:    %s\nverdict: %s\n", c.Names[ri], ro.Path, ro.Line, o.Opened[ri], m, spec, v)
 			if (m != "outside" && !strings.HasPrefix(ro.Line, "err ") && ro.Line != m) || v == "violates" {
 				rc = 1
